@@ -97,6 +97,16 @@ def check_pair(case):
     if len(set(got)) != len(got) or sorted(got) != sorted(want):
         return BAD("occurrence_list", {"got": sorted(got), "want": want})
     has = bool(want)
+    if got:
+        # the reading a user relies on, through the library's own boolean answers: A is reported
+        # inside B, so every permutation that contains B (by the definition) is one the library
+        # says contains A - by every boolean entry point
+        for n in range(len(b), len(b) + 2):
+            for t in ref.perms(n):
+                if ref.mesh_occ(b, bsh, t):
+                    T = Perm(t)
+                    if not (T.contains(A) and A.contained_in(T) and (A in T) and not T.avoids(A) and not A.avoided_by(T) and not T.avoids_set([A])):
+                        return BAD("reported_inside_but_library_says_avoids", {"perm": list(t)})
     for name, g in (("contains", B.contains(A)), ("in", A in B), ("contained_in", A.contained_in(B)), ("not_avoids", not B.avoids(A)), ("not_avoided_by", not A.avoided_by(B))):
         if bool(g) != has:
             return BAD("entry_" + name, {"want": has})
@@ -382,7 +392,7 @@ FUZZ = {"pair": ("pair", lambda: pair_cases(3, 4)), "sub": ("sub", lambda: sub_c
 def run(acc, tier):
     if tier == "quick":
         engine.pmap(acc, shard_exhaustive, extra=(False,))
-        engine.pmap(acc, shard_generated, extra=(500, 300, 200, 2, 3))
+        engine.pmap(acc, shard_generated, extra=(500, 300, 200, 3, 4))
     else:
         engine.pmap(acc, shard_exhaustive, extra=(True,))
         engine.pmap(acc, shard_generated, extra=(8000, 5000, 5000, 3, 4))
